@@ -171,6 +171,39 @@ def flat_rules(rep, mod):
     if set(names) != {'insert', 'count'}:
         raise AnalysisBroken('flat_set::insert/count not instantiated')
     ok = names['insert'][0] == names['count'][0] and names['insert'][0] != []
+    # every ordered search of flat_set is handed the container's comparator: the three-argument forms of lower_bound & co
+    # compare with operator<, which agrees with _comp for the default std::less only
+    def nparams(d):
+        depth, cut = 0, None
+        for k_, ch in enumerate(d):
+            if ch == '<':
+                depth += 1
+            elif ch == '>':
+                depth -= 1
+            elif ch == '(' and depth == 0:
+                cut = k_
+                break
+        if cut is None:
+            return None
+        depth, n = 0, 1
+        for ch in d[cut + 1:d.rfind(')')]:
+            if ch in '<(':
+                depth += 1
+            elif ch in '>)':
+                depth -= 1
+            elif ch == ',' and depth == 0:
+                n += 1
+        return n
+    for f in class_methods(mod, 'igris::flat_set<int'):
+        for c in f.calls():
+            d = demangle1(c.callee) if c.callee else ''
+            if any(d.startswith('std::' + w) or (' std::' + w) in d.split('(')[0] for w in
+                   ('lower_bound', 'upper_bound', 'binary_search', 'equal_range')):
+                n = nparams(d)
+                okc = n is not None and n >= 4
+                rep.inst('R-FLATSEARCH', f.qualname + sig_suffix(f), 'ordered-search-uses-the-container-comparator', okc, c.where(),
+                         None if okc else '%s is called without the comparator of the set: it orders with operator<, the other '
+                         'members with _comp - they disagree for every comparator but std::less' % d.split('<')[0])
     rep.inst('R-FLATSEARCH', 'igris::flat_set<int>', 'insert-and-count-use-the-same-search', ok,
              '%s:%d' % (names['insert'][1].file, names['insert'][1].line),
              None if ok else 'insert positions with %s but count looks up with %s' % (names['insert'][0], names['count'][0]),
